@@ -250,7 +250,9 @@ def do_check(pid, tier):
         "wall_s": round(wall, 2),
         "violations": n_viol,
     }
-    evdir = os.path.join(HOME, "evidence")
+    scratch = os.path.realpath(os.environ.get("VERIF_REPO", "/repo")) != "/repo"
+    # runs against a scratch worktree (mutation testing) must not overwrite the evidence of the real tree
+    evdir = os.path.join(HOME, "evidence_scratch" if scratch else "evidence")
     os.makedirs(evdir, exist_ok=True)
     evpath = os.path.join(evdir, pid + ".json")
     with open(evpath, "w") as f:
